@@ -56,6 +56,14 @@ def programs():
                                       {'tag': 'br', 'static': [['xmlns:tal', 'urn:other']], 'children': None},
                                       el('p', 'x', content=['text', py('v')])), [['v', 'int', 0]],
         ['default', 'renamed-each'])
+    # restricted_namespace=False: an undeclared foreign prefix is tolerated and copied, the language prefixes
+    # still work (default spelling and renamed prefixes declared on the root)
+    loose = el('div', el('p', 'x', static=[['zz:k', 'v'], ['class', 'c']], content=['text', py('v')],
+                         attributes=[['title', py('v')]]),
+               el('zz:w', 'in ', I('v'), static=[['zz:j', '2']]),
+               static=[['data-x', '1'], ['qq:bar', '3']], close_indent=0)
+    out.append(('unrestricted-namespace', loose, [['v', 'int', 0]], ['default', 'renamed-root'],
+                {'options': {'restricted_namespace': False}, 'must_contain': ['zz:k="v"', 'qq:bar="3"', '<zz:w zz:j="2">', 'data-x="1"']}))
     return out
 
 
@@ -95,10 +103,10 @@ def plan(tier, seed):
         bounds=('%d templates (11 hand-written: TAL statements, on-error, i18n, METAL, meta:interpolation; the rest taken from the C01 grammar and C09\'s generated METAL pairs) each written in 2-4 spellings: '
                 'default prefixes, renamed prefixes declared on the root or on each element, data-<prefix>-<name> '
                 'attributes (option on), namespace-element form; foreign attributes mixed in (data-x, data-x-y, '
-                'data-<declared foreign prefix>-name, a declared foreign namespace, data-tal). All spellings must render '
+                'data-<declared foreign prefix>-name, a declared foreign namespace, data-tal; one template with restricted_namespace=False and undeclared foreign prefixes). All spellings must render '
                 'identically for all bindings (decided by the solver), no language attribute/prefix/namespace URI may '
                 'appear and every foreign attribute must. Outside: symbolic prefix strings (prefixes become dict keys), '
-                'restricted_namespace=False, default-namespace (xmlns="...tal") documents.' % len(jobs)),
+                'default-namespace (xmlns="...tal") documents.' % len(jobs)),
         assumptions=['metamorphic: both sides are the implementation; the generator guarantees the relation between '
                      'spellings; output scanned by an independent regular expression for language markup'],
         families=[fam],
